@@ -109,22 +109,118 @@ type solveOpts struct {
 	seed     int
 	jobs     int
 	keep     bool
+	noSlice  bool
 }
 
-func (E *Engine) buildQuery(o *Obligation) string {
+// buildQuery renders the query of an obligation. With slice=true only the facts in the cone of
+// influence of the goal are included (sound for "unsat"; a "sat" must be confirmed on the full query).
+func (E *Engine) buildQuery(o *Obligation, slice bool) string {
+	return E.buildQueryLevel(o, map[bool]int{false: 0, true: 1}[slice])
+}
+
+// level 0: all facts; 1: cone of influence of goal and path condition; 2: cone of influence of the goal only.
+func (E *Engine) buildQueryLevel(o *Obligation, level int) string {
+	slice := level > 0
 	tb := E.tb
-	asserts := append([]*Term{}, E.facts[:o.NFacts]...)
+	var asserts []*Term
+	facts := E.facts[:o.NFacts]
+	if slice && !o.Cover {
+		rel := map[string]bool{}
+		addSyms := func(t *Term) {
+			for s := range tb.Syms(t) {
+				if !hubSym(s) {
+					rel[s] = true
+				}
+			}
+		}
+		addSyms(o.Goal)
+		if level == 1 {
+			addSyms(o.Reach)
+		}
+		inc := make([]bool, len(facts))
+		for changed := true; changed; {
+			changed = false
+			for i, f := range facts {
+				if inc[i] {
+					continue
+				}
+				hit := false
+				for s := range tb.Syms(f.body) {
+					if rel[s] {
+						hit = true
+						break
+					}
+				}
+				if hit {
+					inc[i] = true
+					changed = true
+					addSyms(f.body)
+					if level == 1 {
+						addSyms(f.guard)
+					}
+				}
+			}
+		}
+		for i, f := range facts {
+			if inc[i] {
+				asserts = append(asserts, tb.Implies(f.guard, f.body))
+			}
+		}
+	} else {
+		for _, f := range facts {
+			asserts = append(asserts, tb.Implies(f.guard, f.body))
+		}
+	}
 	asserts = append(asserts, o.Reach)
 	if !o.Cover {
-		asserts = append(asserts, tb.Not(o.Goal))
+		asserts = append(asserts, E.negGoal(o.Goal)...)
 	}
 	return tb.Script(asserts, true)
 }
 
+// negGoal negates the goal, replacing outermost universally quantified variables by named Skolem
+// constants so that a counterexample model shows the offending values.
+func (E *Engine) negGoal(g *Term) []*Term {
+	tb := E.tb
+	if neg, ok := E.negMemo[g]; ok {
+		return neg
+	}
+	var out []*Term
+	switch {
+	case g.kind == kQuant && g.op == "forall":
+		m := map[*Term]*Term{}
+		for _, v := range g.qvars {
+			name := v.atom
+			if i := strings.Index(name, "?"); i >= 0 {
+				name = name[:i]
+			}
+			m[v] = tb.Fresh("sk$"+name, v.sort)
+		}
+		out = E.negGoal(tb.Subst(g.args[0], m))
+	case g.op == "=>":
+		out = append([]*Term{g.args[0]}, E.negGoal(g.args[1])...)
+	case g.op == "or":
+		for _, d := range g.args {
+			out = append(out, E.negGoal(d)...)
+		}
+	default:
+		out = []*Term{tb.Not(g)}
+	}
+	E.negMemo[g] = out
+	return out
+}
+
+// hubSym: symbols that connect everything and therefore do not count as a relevance link.
+func hubSym(s string) bool {
+	return s == "null" || s == "unit" || s == "birth" || strings.HasPrefix(s, "in$") || strings.HasPrefix(s, "clock@") || strings.HasPrefix(s, "clock!") ||
+		s == "strlen" || strings.HasPrefix(s, "str$")
+}
+
 func solveAll(E *Engine, obls []*Obligation, opt solveOpts) {
 	type job struct {
-		o    *Obligation
-		file string
+		o      *Obligation
+		file   string
+		sliced string
 	}
 	var jobs []job
 	for i, o := range obls {
@@ -136,15 +232,21 @@ func solveAll(E *Engine, obls []*Obligation, opt solveOpts) {
 			o.Solver = "trivial"
 			continue
 		}
-		q := E.buildQuery(o)
 		f := filepath.Join(opt.dir, fmt.Sprintf("q%04d_%s.smt2", i, sanitizeFile(o.Name)))
-		if err := os.WriteFile(f, []byte(q), 0o644); err != nil {
+		sf := ""
+		if !o.Cover && !opt.noSlice {
+			sf = filepath.Join(opt.dir, fmt.Sprintf("q%04d_%s.sliced.smt2", i, sanitizeFile(o.Name)))
+			if err := os.WriteFile(sf, []byte(E.buildQueryLevel(o, 2)), 0o644); err != nil {
+				sf = ""
+			}
+		}
+		if err := os.WriteFile(f, []byte(E.buildQuery(o, false)), 0o644); err != nil {
 			o.Result = "error"
 			o.Note = err.Error()
 			continue
 		}
 		o.Query = f
-		jobs = append(jobs, job{o, f})
+		jobs = append(jobs, job{o, f, sf})
 	}
 	var wg sync.WaitGroup
 	ch := make(chan job)
@@ -164,7 +266,18 @@ func solveAll(E *Engine, obls []*Obligation, opt solveOpts) {
 					to = 3
 					order = order[:1]
 				}
-				r := discharge(j.file, order, to, opt.seed)
+				var r solveResult
+				if j.sliced != "" {
+					// cone-of-influence query first: an "unsat" there is final
+					r = discharge(j.sliced, order, to, opt.seed)
+					if r.status != "unsat" {
+						first := r.ms
+						r = discharge(j.file, order, to, opt.seed)
+						r.ms += first
+					}
+				} else {
+					r = discharge(j.file, order, to, opt.seed)
+				}
 				j.o.Result = r.status
 				j.o.Solver = r.solver
 				j.o.WallMs = r.ms
